@@ -322,7 +322,14 @@ def redis_promptness(c):
         c.traces_validated += len(lines)
         return
     ev = json.loads(lines[at - 1])
-    if ev.get("late_ms", 0) > 1000:
+    if ev.get("e") == "deadline":
+        if ev.get("change") == "none":
+            sig = "kvwait: %s waiter with a context deadline and no change returned %s%s" % (
+                ev.get("backend"), ev.get("res"), "" if ev.get("ctxdone") else " while its context was not done yet")
+        else:
+            sig = "kvwait: %s waiter with a context deadline was not woken promptly with ErrNotExist when the record ran out (returned %s)" % (
+                ev.get("backend"), ev.get("res"))
+    elif ev.get("late_ms", 0) > 1000:
         sig = "kvwait: Redis waiter idle for %d ms noticed the change only after more than 1 s (documented poll cap 100 ms)" % ev.get("idle_ms", 0)
     else:
         sig = "kvwait: Redis waiter returned %s after a %s" % (ev.get("res"), ev.get("change"))
